@@ -247,7 +247,22 @@ impl<'c, Q: Queue> Interp<'c, Q> {
                 return Some(Outcome::Fail(mk(f, self)));
             }
         }
-        Some(Outcome::Foreign(mk(&fails[0], self)))
+        // Failures of clauses the property does not own: if they are purely observational (the
+        // model is still an exact description of the content) the case goes on, so that a defect
+        // whose first symptom belongs to another property cannot hide this property's symptom.
+        // If content or return values diverged, the model is no longer usable: stop, no alarm.
+        let observational = |g: Group| {
+            matches!(
+                g,
+                Group::Order | Group::Tables | Group::Sorted | Group::IterStd | Group::Alias | Group::IterMutContract | Group::Hint | Group::Cap | Group::EqClone | Group::Hasher
+            )
+        };
+        if fails.iter().all(|f| observational(f.0)) {
+            self.stats.hit("foreign_observational_ignored");
+            return None;
+        }
+        let f = fails.iter().find(|f| !observational(f.0)).unwrap();
+        Some(Outcome::Foreign(mk(f, self)))
     }
 
     // ------------------------------------------------------------------ resolution
